@@ -314,6 +314,32 @@ class DocBuilder:
         if kind in ELEMENT_KINDS:
             self.elems[c].append((h, kind))
 
+    def lookalike(self, d):
+        """a bundle binds a prefix of its document to another namespace and both use one local name: two names that print alike
+        and denote different things, each declared and related on its own side (C03-1 territory for the text formats; whatever
+        works by URI — graphs, DOT, lookups — must keep them apart)"""
+        g, w = self.g, self.w
+        nss = sorted(w.conts[d].get_registered_namespaces(), key=lambda n: n.prefix)
+        if not nss:
+            return None
+        ns = g.choice(nss)
+        bh = self.new_bundle(d)
+        if not bh:
+            return None
+        u2 = "http://lookalike.example/%s/" % ns.prefix
+        got = w.add_ns(bh, ns.prefix, u2)
+        if got.prefix != ns.prefix:
+            return bh
+        loc = "same%d" % g.rng.randint(0, 9)
+        for (c, uri) in ((d, ns.uri), (bh, u2)):
+            e = w.qname(ns.prefix, uri, loc)
+            a = w.qname(ns.prefix, uri, loc + "act")
+            w.new_record(c, "Entity", e, [])
+            if g.chance(0.6):
+                w.new_record(c, "Activity", a, [])
+            w.new_record(c, "Generation", None, [("prov:entity", e), ("prov:activity", a)])
+        return bh
+
     def mutate_in_place(self, roots, n=None, extend_records=True):
         """a later chapter of the same history: records are added / extended in place, namespaces are registered, after the
         containers have already been exported, looked up, unified … (any answer remembered from before is now stale)"""
